@@ -19,6 +19,7 @@
 #include "djinterop/engine/v1/performance_data_format.hpp"
 
 #include "common/core.hpp"
+#include "common/seams.hpp"
 #include "refcodec/refcodec.hpp"
 
 namespace cod
@@ -853,6 +854,16 @@ struct V1Track
     }
     static bool must_accept(const Lib&) { return true; }
 };
+
+// Decode under the inflate-call horizon: a decompression loop that does not terminate throws seam::HorizonExceeded
+// (not a std::exception) after more calls than any stream of that size can need.
+inline long inflate_horizon(size_t compressed_size) { return 64 + 2 * (long)(compressed_size / 16384) + (long)(compressed_size / 14); }
+template <class T>
+inline typename T::Lib guarded_dec(const ByteVec& b)
+{
+    vx::seam::InflateArm arm(inflate_horizon(b.size()));
+    return T::dec(b);
+}
 
 // Run fn(Tag<Traits>{}) for each of the eleven codecs (C++17: generic lambda with `using T = typename decltype(tag)::type`).
 template <class T>
